@@ -316,7 +316,7 @@ Lemma log_serve_found c cs tbl ek rules path ops ret u r :
   let s := fst (run c (u, rec0) (ops ++ fallback tbl ek ret)) in
   log_serve c cs tbl ek rules path ops ret u =
   (fst s, if (400 <=? ret)%Z then 0%Z else ret, false,
-   map (fun e => (n_id e, r_status (snd s), r_size (snd s)))
+   map (fun e => (n_id e, r_status (snd s), logged_size c (snd s)))
        (filter (fun e => should_log cs (n_except e) path) (ru_entries r))).
 Proof.
   intros Hf Hn. cbv zeta. unfold log_serve. rewrite Hf.
@@ -388,30 +388,30 @@ Proof.
   split; [reflexivity|]. split; [|split].
   - intros e He. apply (count_one_per_entry (fun e => should_log cs (n_except e) path) _ _ _ e Hnd He).
   - intros i Hi. apply count_id_none. intro H. apply Hi. eapply filter_ids_subset. exact H.
-  - exists (r_status (snd s)), (r_size (snd s)). intros l Hl.
+  - exists (r_status (snd s)), (logged_size c (snd s)). intros l Hl.
     apply in_map_iff in Hl as [e [<- _]]. split; reflexivity.
 Qed.
 
 (* ---- logged status and size are what the client got ----------------------------------------- *)
 (* the recorder and the writer below it agree: same byte count, and either both have committed
    the same status or neither has (the recorder then still holds its default 200) *)
-Definition consistent (s : uw * rec) : Prop :=
-  u_size (fst s) = r_size (snd s) /\
+Definition consistent (c : wcfg) (s : uw * rec) : Prop :=
+  u_size (fst s) = logged_size c (snd s) /\
   ((u_status (fst s) = Some (r_status (snd s)) /\ r_wrote (snd s) = true) \/
    (u_status (fst s) = None /\ r_status (snd s) = 200%Z /\ r_wrote (snd s) = false)).
 
-Lemma consistent_client s : consistent s ->
-  client_status (fst s) = r_status (snd s) /\ u_size (fst s) = r_size (snd s).
+Lemma consistent_client c s : consistent c s ->
+  client_status (fst s) = r_status (snd s) /\ u_size (fst s) = logged_size c (snd s).
 Proof.
   intros [Hs [[Hc _]|[Hc [H2 _]]]]; split; try exact Hs; unfold client_status; rewrite Hc; [reflexivity|].
   symmetry. exact H2.
 Qed.
 
-Lemma consistent_init : consistent (uw0, rec0).
-Proof. split; simpl; [reflexivity|right; repeat split; reflexivity]. Qed.
+Lemma consistent_init c : consistent c (uw0, rec0).
+Proof. split; simpl; [unfold logged_size; destruct (w_head c); reflexivity|right; repeat split; reflexivity]. Qed.
 
 Lemma step_consistent c s o :
-  w_head c = false -> final_codes [o] = true -> consistent s -> consistent (step c s o).
+  head_ok c = true -> final_codes [o] = true -> consistent c s -> consistent c (step c s o).
 Proof.
   intros Hh Hf [Hs Hc]. destruct s as [u r]. destruct o as [code|len fail|]; [| |split; assumption].
   - simpl in Hf. rewrite andb_true_r in Hf. simpl in *. unfold uw_wh.
@@ -419,21 +419,27 @@ Proof.
     + split; [exact Hs|left; split; assumption].
     + rewrite Hf. simpl. split; [exact Hs|left; split; reflexivity].
   - simpl in *. unfold uw_write.
-    assert (H1 : u_size (uw_wh u 200) = r_size r /\ u_status (uw_wh u 200) = Some (r_status r)).
+    assert (H1 : u_size (uw_wh u 200) = logged_size c r /\ u_status (uw_wh u 200) = Some (r_status r)).
     { unfold uw_wh. destruct Hc as [[Hc _]|[Hc [H2 _]]]; rewrite Hc; simpl; [auto|]. rewrite H2. auto. }
-    destruct H1 as [H1 H2]. rewrite Hh, andb_false_r.
-    destruct (w_nethttp c && body_forbidden (client_status (uw_wh u 200))).
-    + split; simpl; [exact H1|left; split; [exact H2|reflexivity]].
-    + destruct fail as [k|]; split; simpl; try exact H1; try (left; split; [exact H2|reflexivity]).
-      rewrite H1. reflexivity.
+    destruct H1 as [H1 H2]. unfold head_ok in Hh. unfold logged_size in *.
+    destruct (w_head c) eqn:Eh.
+    + simpl in Hh. rewrite Hh. simpl.
+      destruct (body_forbidden (client_status (uw_wh u 200)));
+        (split; simpl; [unfold logged_size; simpl; rewrite Eh; exact H1|left; split; [exact H2|reflexivity]]).
+    + rewrite andb_false_r.
+      destruct (w_nethttp c && body_forbidden (client_status (uw_wh u 200))).
+      * split; simpl; [unfold logged_size; simpl; rewrite Eh; exact H1|left; split; [exact H2|reflexivity]].
+      * destruct fail as [k|]; split; simpl; try (unfold logged_size; simpl; rewrite Eh);
+          try exact H1; try (left; split; [exact H2|reflexivity]).
+        rewrite H1. reflexivity.
 Qed.
 
 Lemma run_consistent c : forall ops s,
-  w_head c = false -> final_codes ops = true -> consistent s -> consistent (fst (run c s ops)).
+  head_ok c = true -> final_codes ops = true -> consistent c s -> consistent c (fst (run c s ops)).
 Proof.
   induction ops as [|o ops IH]; intros s Hh Hf Hc; [exact Hc|].
   simpl in Hf. apply andb_true_iff in Hf as [Ho Hf].
-  assert (Hs : consistent (step c s o)).
+  assert (Hs : consistent c (step c s o)).
   { apply step_consistent; auto. simpl. rewrite Ho. reflexivity. }
   destruct o as [code|len fail|]; simpl; [apply IH; assumption|apply IH; assumption|exact Hc].
 Qed.
@@ -451,7 +457,7 @@ Proof. intro H. simpl. rewrite (error_code_final ret H). reflexivity. Qed.
    below 400 (so that the server adds nothing) and every line carries the committed status and
    the delivered byte count *)
 Lemma log_serve_lines c cs tbl ek rules path ops ret :
-  w_head c = false -> final_codes ops = true ->
+  head_ok c = true -> final_codes ops = true ->
   let '(u', ret', p, lines) := log_serve c cs tbl ek rules path ops ret uw0 return Prop in
   lines = [] \/
   (p = false /\ (400 <=? ret')%Z = false /\
@@ -459,7 +465,7 @@ Lemma log_serve_lines c cs tbl ek rules path ops ret :
 Proof.
   intros Hh Hf. unfold log_serve.
   destruct (find (fun r => path_matches cs path (ru_scope r)) rules) as [r|].
-  - pose proof (run_consistent c ops (uw0, rec0) Hh Hf consistent_init) as Hc.
+  - pose proof (run_consistent c ops (uw0, rec0) Hh Hf (consistent_init c)) as Hc.
     destruct (run c (uw0, rec0) ops) as [[u1 r1] p]. cbn [fst] in Hc.
     destruct p; [left; reflexivity|].
     destruct (400 <=? ret)%Z eqn:E.
@@ -475,7 +481,7 @@ Proof.
 Qed.
 
 Lemma logged_exact c cs tbl ek rules path ops ret :
-  w_head c = false -> final_codes ops = true ->
+  head_ok c = true -> final_codes ops = true ->
   let '(u', _, _, lines) := log_serve c cs tbl ek rules path ops ret uw0 return Prop in
   forall l, In l lines -> snd (fst l) = client_status u' /\ snd l = u_size u'.
 Proof.
@@ -644,7 +650,7 @@ Proof.
 Qed.
 
 Lemma site_logged_exact c cs tbl (haserr hdrw : bool) ds path ops ret :
-  w_head c = false -> final_codes ops = true ->
+  head_ok c = true -> final_codes ops = true ->
   let '(st, sz, lines) := site_serve c cs tbl haserr hdrw ds path ops ret return Prop in
   forall l, In l lines -> snd (fst l) = st /\ snd l = sz.
 Proof.
